@@ -16,7 +16,7 @@ import types
 import uuid as _uuid
 
 from common import BIN, LEAN, impl_error
-from props.c20 import FIELDS, cval
+from props.c20 import FIELDS, Addr2, Addr4, Int, Str, cval, jv, uj
 from props.c20 import cps as _cps_raw
 
 PROP = "C18"
@@ -28,6 +28,9 @@ ANCHORS = ["okdmr/dmrlib/storage/__init__.py"]
 
 P1, P2, P3 = ("10.0.0.1", 50000), ("10.0.0.1", 50001), ("10.0.0.2", 50000)
 PEERS = [P1, P2, P3]
+# AF_INET6 peers as asyncio hands them over: (host, port, flowinfo, scope_id).  Q1 / Q2 / Q3 share host AND port.
+Q1, Q2, Q3, Q0 = ("fe80::1", 50000, 0, 0), ("fe80::1", 50000, 0, 3), ("fe80::1", 50000, 7, 0), ("fe80::1", 50000)
+PEERS6 = [Q1, Q2, Q0]
 
 _CPS = {}
 
@@ -37,6 +40,29 @@ def cps(s: str) -> str:
     if r is None:
         r = _CPS[s] = _cps_raw(s)
     return r
+
+
+def caddr(a) -> str:
+    """peer address on the driver's line protocol: `<ip cps>:<port>[:<n>...]` for a tuple (str, int, int ...) of two or more
+    elements (namedtuples and str subclasses compare, hash and print as the plain tuple); anything else (a list, a port
+    that is no plain int, None) is outside the model: `?`"""
+    if isinstance(a, tuple) and len(a) >= 2 and isinstance(a[0], str) and all(type(x) is int and x >= 0 for x in a[1:]):
+        return cps(a[0]) + "".join(f":{x}" for x in a[1:])
+    return "?addr"
+
+
+def is_pair(a) -> bool:
+    """`"%s:%s" % address` works: a tuple of exactly two elements"""
+    return isinstance(a, tuple) and len(a) == 2
+
+
+def jaddr(a):
+    """JSON form of a peer address in a recorded history (plain tuples as lists, as before; other shapes tagged)"""
+    return list(a) if type(a) is tuple and all(x is None or type(x) in (bool, int, str) for x in a) else jv(a)
+
+
+def uaddr(x):
+    return tuple(x) if isinstance(x, list) else uj(x)
 
 
 # ------------------------------------------------------------------------------------------------
@@ -127,7 +153,7 @@ class FakeTransport(asyncio.DatagramTransport):
 
 
 class Sut:
-    def __init__(self, p2p_port=50000, rdac_port=50002):
+    def __init__(self, p2p_port=50000, rdac_port=50002, indexed=False):
         import okdmr.dmrlib.storage.repeater as rmod
         from okdmr.dmrlib.protocols.hytera.p2p_datagram_protocol import P2PDatagramProtocol
         from okdmr.dmrlib.protocols.hytera.rdac_datagram_protocol import RDACDatagramProtocol
@@ -152,7 +178,30 @@ class Sut:
         self.R = RDACDatagramProtocol
         self.P = P2PDatagramProtocol
         self.log = []
-        self.storage = RepeaterStorage()
+
+        class IndexedStorage(RepeaterStorage):
+            """a RepeaterStorage whose lookup by incoming address is a dict lookup: the index is kept by create_repeater
+            ("override this method if you need to extend" - its docstring); everything else is inherited.  Exact as long as
+            nobody assigns address_in (the handlers never do).  The handlers take the storage as a constructor argument."""
+
+            def __init__(self):
+                super().__init__()
+                self.by_addr = {}
+
+            def create_repeater(self, *a, **k):
+                r = super().create_repeater(*a, **k)
+                self.by_addr[r.address_in] = r
+                return r
+
+            def match_attr(self, attr_name, match_value):
+                if attr_name == "address_in":
+                    try:
+                        return self.by_addr.get(match_value)
+                    except TypeError:  # an unhashable address: the inherited scan
+                        pass
+                return super().match_attr(attr_name, match_value)
+
+        self.storage = IndexedStorage() if indexed else RepeaterStorage()
         self.p2p = P2PDatagramProtocol(self.storage, p2p_port=p2p_port, rdac_port=rdac_port)
         self.p2p.connection_made(FakeTransport(self.log))
         self.rdac = RDACDatagramProtocol(self.storage, callback=lambda rid: self.log.append(("cb", rid)))
@@ -213,7 +262,7 @@ class Sut:
             self.p2p.datagram_received(data, addr)
         except BaseException as e:  # noqa
             exc = e
-        line = f"p2p {cps(addr[0])}:{addr[1]} {data.hex() or '-'} {int(snmp_fails)}"
+        line = f"p2p {caddr(addr)} {data.hex() or '-'} {int(snmp_fails)}"
         out = f"outs={self.events()} res={'ok' if exc is None else impl_error(exc)} len={len(self.storage)}"
         return line, out, list(self.log), exc
 
@@ -225,18 +274,28 @@ class Sut:
             self.rdac.datagram_received(data, addr)
         except BaseException as e:  # noqa
             exc = e
-        line = f"rdac {cps(addr[0])}:{addr[1]} {data.hex() or '-'} {int(snmp_fails)}"
+        line = f"rdac {caddr(addr)} {data.hex() or '-'} {int(snmp_fails)}"
         out = f"outs={self.events()} res={'ok' if exc is None else impl_error(exc)} steps={self.steps()} len={len(self.storage)}"
         return line, out, list(self.log), exc
 
+    # ---- deliveries without building the line-protocol texts (scale streams: the texts are O(peers) each)
+    def rx_light(self, which, addr, data: bytes, snmp_fails=False):
+        self.log.clear()
+        self.snmp_fails = snmp_fails
+        try:
+            (self.p2p if which == "p2p" else self.rdac).datagram_received(data, addr)
+        except BaseException as e:  # noqa
+            return list(self.log), e
+        return list(self.log), None
+
     def set_out(self, addr, out_addr):
         self.storage.match_incoming(addr, auto_create=True, patch={"address_out": out_addr})
-        return f"setout {cps(addr[0])}:{addr[1]} {cval(out_addr)}", f"ok len={len(self.storage)}"
+        return f"setout {caddr(addr)} {cval(out_addr)}", f"ok len={len(self.storage)}"
 
     def set_attr(self, addr, key, value):
         """the application patches a dynamic attribute of the record of `addr` (never the is-registered key with a true value)"""
         self.storage.match_incoming(addr, auto_create=True, patch={key: value})
-        return f"envpatch {cps(addr[0])}:{addr[1]} {key} {cval(value)}", f"ok len={len(self.storage)}"
+        return f"envpatch {caddr(addr)} {key} {cval(value)}", f"ok len={len(self.storage)}"
 
 
 # ------------------------------------------------------------------------------------------------
@@ -572,7 +631,7 @@ class NearMiss:
 class Oracle:
     def __init__(self, ctx, sut, history, ports=(50000, 50002)):
         self.ctx, self.sut, self.history, self.ports = ctx, sut, history, ports
-        self.registered = set()
+        self.registered = []  # peer addresses, compared with == (a list address is unhashable)
         self.completions = {}
         # the pinned protocol constants, not the live class attributes: a changed constant must not move the yardstick
         self.expected = SPEC_RESP
@@ -588,9 +647,13 @@ class Oracle:
         authorisation decision (outside the property): a true value authorises, a false one (not None: skipped) revokes"""
         if key == SPEC["p2pIsRegisteredKey"] and value is not None:
             if value:
-                self.registered.add(addr)
+                self.mark_registered(addr)
             else:
-                self.registered.discard(addr)
+                self.registered = [a for a in self.registered if not a == addr]
+
+    def mark_registered(self, addr):
+        if not any(a == addr for a in self.registered):
+            self.registered.append(addr)
 
     # ---- P2P
     def p2p_before(self, addr):
@@ -608,7 +671,7 @@ class Oracle:
         is_rdac = is_cmd and ptype == SPEC["p2pTypeRdacStartup"]
         is_dmr = is_cmd and ptype == SPEC["p2pTypeDmrStartup"]
         is_ping = (not is_cmd) and data[4:9] == SPEC["p2pPingPrefix"]
-        registered = addr in self.registered
+        registered = any(a == addr for a in self.registered)
         reject = (b"\x00", addr)
         # network I/O (the SNMP read) belongs to a registration that got as far as its answer, to nothing else
         io = sut.snmp_calls - self.calls0
@@ -623,12 +686,14 @@ class Oracle:
                 (name == "ValueError" and len(data) > 4 and data[4] == 255 and (is_reg or ((is_rdac or is_dmr) and registered)))
                 or (name == "IndexError" and is_ping and registered and len(data) < 15)
                 or (name == "SnmpStubError" and is_reg and self.sut.snmp_fails)
+                # the log line `"... %s:%s" % address` of the two start-up handlers, formatted after the acceptance was sent
+                or (name == "TypeError" and (is_rdac or is_dmr) and registered and not is_pair(addr))
             )
             if not okexc:
                 self.fail("p2p-unexpected-exception", f"datagram_received raised {name}: {exc}")
         if is_reg:
             if exc is None:
-                self.registered.add(addr)
+                self.mark_registered(addr)
             # registration is open to anyone: at most the registration answer, to the stored outbound address
             if len(sends) > 1 or (exc is None and len(sends) != 1):
                 self.fail("p2p-registration-answer", "a registration was not answered by exactly one datagram", expected=1, actual=len(sends))
@@ -654,6 +719,8 @@ class Oracle:
                 want = 1 if is_ping else 2
                 if exc is None and len(sends) != want:
                     self.fail("p2p-answer-count", "a request from a registered source was not answered as specified", expected=want, actual=len(sends))
+                if type(exc).__name__ == "TypeError" and len(sends) != 1:
+                    self.fail("p2p-answer-count", "a start-up request from a registered peer with a longer address tuple: the acceptance, then TypeError", expected=1, actual=len(sends))
             if sut.snapshot() != self.snap0:
                 self.fail("p2p-request-changed-state", "a start-up request / ping changed the storage")
             return
@@ -762,7 +829,7 @@ def apply(sut, oracle, sym, pairs, ctx):
     if sym[0] == "p2p":
         _, addr, data, f = sym
         if oracle:
-            oracle.history.append(["p2p", list(addr), data.hex(), f])
+            oracle.history.append(["p2p", jaddr(addr), data.hex(), f])
             oracle.p2p_before(addr)
         line, out, events, exc = sut.p2p_rx(addr, data, f)
         pairs.append((line, out))
@@ -771,7 +838,7 @@ def apply(sut, oracle, sym, pairs, ctx):
     elif sym[0] == "rdac":
         _, addr, data, f = sym
         if oracle:
-            oracle.history.append(["rdac", list(addr), data.hex(), f])
+            oracle.history.append(["rdac", jaddr(addr), data.hex(), f])
             oracle.rdac_before(addr)
         line, out, events, exc = sut.rdac_rx(addr, data, f)
         pairs.append((line, out))
@@ -780,14 +847,14 @@ def apply(sut, oracle, sym, pairs, ctx):
     elif sym[0] == "setattr":
         _, addr, key, value = sym
         if oracle:
-            oracle.history.append(["setattr", list(addr), key, value])
+            oracle.history.append(["setattr", jaddr(addr), key, value])
             oracle.env_attr(addr, key, value)
         pairs.append(sut.set_attr(addr, key, value))
         exc = None
     else:
         _, addr, out_addr = sym
         if oracle:
-            oracle.history.append(["setout", list(addr), list(out_addr)])
+            oracle.history.append(["setout", jaddr(addr), list(out_addr)])
         pairs.append(sut.set_out(addr, out_addr))
         exc = None
     ctx.count(f"sym:{sym[0]}")
@@ -798,14 +865,18 @@ def apply(sut, oracle, sym, pairs, ctx):
 def run_history(ctx, syms, pairs, ports=(50000, 50002), prefix=()):
     sut = Sut(*ports)
     try:
-        pairs.append((f"reset {ports[0]} {ports[1]}", "ok"))
+        local = [(f"reset {ports[0]} {ports[1]}", "ok")]
         history = []
         oracle = Oracle(ctx, sut, history, ports)
         for s in prefix:
-            apply(sut, oracle, s, pairs, ctx)
+            apply(sut, oracle, s, local, ctx)
         for s in syms:
-            apply(sut, oracle, s, pairs, ctx)
-        pairs.append(("dump", sut.dump()))
+            apply(sut, oracle, s, local, ctx)
+        local.append(("dump", sut.dump()))
+        if any("?" in line for line, _ in local):
+            ctx.count("histories-outside-the-model(oracle-only)")  # a peer address that is no tuple (str, int, ...)
+        else:
+            pairs.extend(local)
         return sut
     finally:
         sut.close()
@@ -862,8 +933,8 @@ CORPUS = [
 ]
 
 
-def random_sym(rng, nm=None):
-    peer = rng.choice(PEERS)
+def random_sym(rng, nm=None, peers=PEERS):
+    peer = rng.choice(peers)
     if nm is not None and rng.random() < 0.15:
         # a near miss of one of the compared values, wherever the history happens to be
         k = rng.randrange(100)
@@ -989,7 +1060,7 @@ def near_miss_sections(ctx, nm, pairs, flush):
                 if h in seen or len(seen) >= 3:
                     continue
                 seen.append(h)
-                alone = [("rdac", tuple(h[1]), bytes.fromhex(h[2]), bool(h[3]))]
+                alone = [("rdac", uaddr(h[1]), bytes.fromhex(h[2]), bool(h[3]))]
                 run_history(ctx, alone, pairs, prefix=prefix if st else prefix + [("rdac", P1, b"\x55\x55", False)])
             if len(ctx.failures) == before:  # only the accumulated history shows it
                 f = sh.failures[0]
@@ -1103,6 +1174,354 @@ def near_miss_sections(ctx, nm, pairs, flush):
     flush("handshake.p2p-x")
 
 
+# ------------------------------------------------------------------------------------------------
+# argument provenance: the shapes in which the transport hands over a peer address
+
+
+def peer_shapes(h="fe80::1", p=50000):
+    """[(name, address)]: two peers are the same peer iff their addresses are == (the storage compares address_in == address)"""
+    h2 = h[:-1] + "2"
+    return [
+        ("tuple4", (h, p, 0, 0)),  # AF_INET6: (host, port, flowinfo, scope_id)
+        ("tuple4-scope", (h, p, 0, 3)),
+        ("tuple4-flow", (h, p, 7, 0)),
+        ("tuple2", (h, p)),
+        ("namedtuple4-scope", Addr4(h, p, 0, 3)),  # == tuple4-scope
+        ("subclasses4-scope", (Str(h), Int(p), 0, 3)),  # == tuple4-scope
+        ("namedtuple2", Addr2(h, p)),  # == tuple2
+        ("list4", [h, p, 0, 0]),  # a list is never == a tuple
+        ("list2", [h, p]),
+        ("tuple3", (h, p, 0)),
+        ("tuple5", (h, p, 0, 0, 0)),
+        ("tuple4-port", (h, p + 1, 0, 0)),
+        ("tuple4-host", (h2, p, 0, 0)),
+    ]  # (a port that is no int never comes from a transport and breaks `port.to_bytes` in the DMR redirect: not a peer address)
+
+
+def peer_pair_history(x, y):
+    """x registers and half-identifies itself; y (nearly or exactly the same address) asks for everything; then y registers"""
+    reg, ping, dmr, rdacq = p2p_command(0x10), p2p_ping(16), p2p_command(0x11), p2p_command(0x12)
+    return (
+        [("p2p", x, reg, False), ("setout", x, ("192.0.2.9", 40000)), ("p2p", y, ping, False), ("p2p", y, dmr, False), ("p2p", y, rdacq, False),
+         ("p2p", x, ping, False), ("p2p", x, rdacq, False), ("p2p", x, dmr, False)]
+        + [("rdac", x, d, False) for d in drive_to(5)]
+        + [("rdac", y, expected_for(5), False), ("rdac", y, b"\x00", False), ("rdac", x, expected_for(1), False)]
+        + [("p2p", y, reg, True), ("p2p", y, ping, False), ("p2p", y, reg, False), ("p2p", y, ping, False), ("p2p", x, ping, False), ("p2p", y, dmr, False)]
+    )
+
+
+def run_peer_shapes(ctx, pairs, flush):
+    shapes = peer_shapes()
+    n = 0
+    for (nx, x), (ny, y) in itertools.product(shapes, repeat=2):
+        run_history(ctx, peer_pair_history(x, y), pairs)
+        ctx.case(("peer-shapes", nx, ny), sample={"class": "peer address shapes", "first": jaddr(x), "second": jaddr(y), "same peer": bool(x == y)} if (nx, ny) == ("tuple4", "tuple4-scope") else None)
+        ctx.count("peers:pair:same-peer" if x == y else "peers:pair:different-peers")
+        n += 1
+    for h, p in (("10.0.0.1", 50000), ("::1", 0)):
+        sh = peer_shapes(h, p)
+        for (nx, x), (ny, y) in itertools.product(sh[:4], sh):
+            run_history(ctx, peer_pair_history(x, y), pairs)
+            ctx.case(("peer-shapes", h, nx, ny))
+            n += 1
+    ctx.count("peers:pair-histories", n)
+    flush("handshake.peer-shapes")
+    # ---- every P2P sequence up to length 3 (quick) / 4 over the requests of three IPv6 peers sharing host and port
+    reg, ping, dmr, rdacq = p2p_command(0x10), p2p_ping(16), p2p_command(0x11, rid=7, length=30, fill=3), p2p_command(0x12, rid=0, length=21)
+    alpha = []
+    for q in PEERS6:
+        alpha += [("p2p", q, reg, False), ("p2p", q, ping, False), ("p2p", q, dmr, False), ("p2p", q, rdacq, False)]
+    alpha += [("p2p", Addr4(*Q2), ping, False), ("p2p", Q3, reg, False), ("p2p", Q3, ping, False), ("setout", Q1, ("192.0.2.9", 40000)), ("p2p", Q2, reg, True)]
+    n = 0
+    for L in range(1, (4 if ctx.thorough() else 3) + 1):
+        for seq in itertools.product(range(len(alpha)), repeat=L):
+            run_history(ctx, [alpha[i] for i in seq], pairs)
+            ctx.case(("p2p6", seq))
+            n += 1
+            if len(pairs) > 300000:
+                flush("handshake.p2p6")
+    ctx.count("exhaustive:p2p-ipv6-peers", n)
+    flush("handshake.p2p6")
+    # ---- RDAC: sequences over three IPv6 peers (one step per host) from the initial state
+    ralpha = [s for s in rdac_alphabet([Q1, Q2]) if s[2] != RESP_00] + [("rdac", Q0, RESP_FD, False), ("rdac", Q0, b"\x00", False)]
+    n = 0
+    for L in range(1, (4 if ctx.thorough() else 3) + 1):
+        for seq in itertools.product(range(len(ralpha)), repeat=L):
+            run_history(ctx, [ralpha[i] for i in seq], pairs)
+            ctx.case(("rdac6", seq))
+            n += 1
+            if len(pairs) > 300000:
+                flush("handshake.rdac6")
+    ctx.count("exhaustive:rdac-ipv6-peers", n)
+    flush("handshake.rdac6")
+    # ---- random mixed histories over pools of shapes
+    for i in range(ctx.budget(60, 1500)):
+        pool = [Q1, Q2, Q0] + ctx.rng.sample([a for _, a in shapes], 3)
+        seq = [random_sym(ctx.rng, None, pool) for _ in range(ctx.rng.choice([10, 40, 120]))]
+        run_history(ctx, seq, pairs)
+        ctx.case(("random6", i, str(seq[:4])))
+        if len(pairs) > 300000:
+            flush("handshake.random6")
+    flush("handshake.random6")
+
+
+# ------------------------------------------------------------------------------------------------
+# scale: many distinct peers on ONE handler instance (step table / registered flags have no bound)
+
+
+def spec_next(before, data):
+    """the step after a datagram, read off the pinned protocol constants (no exception expected)"""
+    if len(data) == 1 and before != 14:
+        return 1
+    if before == 14:
+        return 14
+    if before == 0:
+        return 1
+    e = SPEC_RESP.get(before)
+    nxt = {1: 2, 2: 3, 3: 4, 4: 5, 5: 6, 6: 7, 7: 8, 8: 10, 10: 11, 11: 12, 12: 13, 13: 14}
+    return nxt[before] if e is not None and data[: len(e)] == e else before
+
+
+SCALE_SHAPES = {
+    "ips": lambda i: (f"10.{(i >> 16) & 255}.{(i >> 8) & 255}.{i & 255}", 50000 + i % 3),
+    # AF_INET6 peers: four neighbours share host and port and differ in the scope id
+    "ips6": lambda i: (f"fe80::{(i >> 2) >> 16:x}:{(i >> 2) & 0xFFFF:x}", 50000, 0, i & 3),
+}
+
+
+def checkpoint(k) -> bool:
+    return k % 1024 in (0, 1) or (k & (k - 1)) == 0 or ((k + 1) & k) == 0 or ((k - 1) & (k - 2)) == 0
+
+
+def scale_rdac_events(shape, n, salt):
+    """yields (peer index, datagram): six early peers (two finish, one stops at step 13, one at 6, one at 1, one silent), then
+    n - 6 further distinct source addresses sending one datagram each (every 97th a second one, every 1009th the whole
+    identification), then the early peers and a sample of old / new peers again"""
+    rng = __import__("random").Random(f"scale-rdac:{shape}:{n}:{salt}")
+    for i in (0, 1):
+        for d in drive_to(14):
+            yield i, d
+    for i, st in ((2, 13), (3, 6), (4, 1)):
+        for d in drive_to(st):
+            yield i, d
+    for i in range(6, n):
+        yield i, b"\x55\x55"
+        if i % 1009 == 7:
+            for d in drive_to(14)[1:]:
+                yield i, d
+        elif i % 97 == 5:
+            yield i, RESP_FD
+    # the early peers again: finished ones must stay finished (no second completion), unfinished ones go on where they were
+    for d in [RESP_FA, b"\x00", b"\x55\x55"] + drive_to(14):
+        yield 0, d
+    yield 1, RESP_FA
+    yield 2, RESP_FA  # completes now, once
+    yield 2, RESP_FA
+    for st in STEP_ORDER[STEP_ORDER.index(6) : -1]:
+        yield 3, expected_for(st)
+    yield 4, RESP_10
+    yield 5, b"\x01"
+    for i in [6, 7, n - 1, n - 2] + [rng.randrange(6, n) for _ in range(64)]:
+        yield i, RESP_FD
+        yield i, RESP_10
+
+
+def run_scale_rdac(ctx, shape, n, salt, indexed, upto=None):
+    """O(1) checks per datagram (step of the sender, size of the step table, completion exactly on 13 -> 14 and once per
+    host, destinations), the whole step table against a mirror at checkpoints (powers of two +-1, every 1024 peers, the end)"""
+    addr = SCALE_SHAPES[shape]
+    sut = Sut(indexed=indexed)
+    mirror, done, failure, t = {}, {}, None, 0
+    try:
+        for t, (i, data) in enumerate(scale_rdac_events(shape, n, salt)):
+            if upto is not None and t > upto:
+                break
+            a = addr(i)
+            ip = a[0]
+            before = mirror.get(ip, 0)
+            events, exc = sut.rx_light("rdac", a, data)
+            want = spec_next(before, data)
+            mirror[ip] = want
+            got = sut.rdac.step.get(ip)
+            cbs = [e[1] for e in events if e[0] == "cb"]
+            if exc is not None:
+                failure = ("rdac-unexpected-exception", f"delivery {t}: datagram_received raised {type(exc).__name__} with {len(mirror)} peers in the step table", None, impl_error(exc))
+            elif got != want:
+                failure = ("rdac-isolation" if before and not got else "rdac-step", f"delivery {t}: step of {ip} (peer #{i} of {len(mirror)}) went {before} -> {got}", want, got)
+            elif len(sut.rdac.step) != len(mirror):
+                failure = ("rdac-isolation", f"delivery {t} from {ip}: the step table holds {len(sut.rdac.step)} peers, {len(mirror)} distinct source hosts have talked to the handler (steps of other peers were dropped)", len(mirror), len(sut.rdac.step))
+            elif len(cbs) != (1 if before == 13 and want == 14 else 0):
+                failure = ("rdac-completion", f"delivery {t}: completion callback does not coincide with the step of {ip} going 13 -> 14", int(before == 13 and want == 14), len(cbs))
+            elif any(e[0] == "send" and e[2] != a for e in events):
+                failure = ("rdac-destination", f"delivery {t}: a request was sent to another address than the peer's", cval(a), None)
+            if cbs and not failure:
+                done[ip] = done.get(ip, 0) + 1
+                if done[ip] > 1:
+                    failure = ("rdac-completion", f"delivery {t}: completion reported {done[ip]} times for {ip} ({len(mirror)} peers)", 1, done[ip])
+            if not failure and checkpoint(len(mirror)) and before == 0:
+                if dict(sut.rdac.step) != mirror:
+                    bad = [k for k in mirror if sut.rdac.step.get(k) != mirror[k]][:4]
+                    failure = ("rdac-isolation", f"delivery {t}: with {len(mirror)} peers the steps of {bad} differ from what their own datagrams imply", [mirror[k] for k in bad], [sut.rdac.step.get(k) for k in bad])
+            if failure:
+                break
+        if not failure and upto is None and dict(sut.rdac.step) != mirror:
+            bad = [k for k in mirror if sut.rdac.step.get(k) != mirror[k]][:4]
+            failure = ("rdac-isolation", f"at the end ({len(mirror)} peers) the steps of {bad} differ from what their own datagrams imply", [mirror[k] for k in bad], [sut.rdac.step.get(k) for k in bad])
+        if not failure and upto is None and len(sut.storage) != n:
+            failure = ("rdac-storage-local", f"one record per source address after {n} distinct addresses", n, len(sut.storage))
+        if ctx is not None:
+            ctx.count(f"scale:rdac:{shape}:{'indexed' if indexed else 'plain'}-storage:peers", len(mirror))
+            ctx.count("scale:rdac:deliveries", t + 1)
+            ctx.hist["scale:rdac:peers-max"] = max(len(mirror), ctx.hist.get("scale:rdac:peers-max", 0))
+            ctx.case(("scale-rdac", shape, n, salt, indexed), sample={"class": "scale", "handler": "rdac", "shape": shape, "peers": len(mirror), "deliveries": t + 1, "indexed storage": indexed})
+            if failure:
+                ctx.count(f"oracle-failure:{failure[0]}")
+                ctx.fail(failure[0], {"stream": "scale-rdac", "shape": shape, "n": n, "salt": salt, "indexed": indexed, "upto": t}, failure[1], expected=failure[2], actual=failure[3])
+        return failure
+    finally:
+        sut.close()
+
+
+def scale_p2p_events(shape, n, salt):
+    """yields (peer index, kind, snmp_fails): every third peer registers (every 21st of them with a failing SNMP read: answered,
+    not registered), then every peer pings; then old / new / sampled peers send start-up requests and register late"""
+    rng = __import__("random").Random(f"scale-p2p:{shape}:{n}:{salt}")
+    for i in range(n):
+        if i % 3 == 0:
+            yield i, "reg", i % 21 == 9
+        elif i % 50 == 1:
+            yield i, "ping", False
+    for i in range(n):
+        yield i, "ping", False
+    for i in [0, 1, 2, 3, 4, n - 1, n - 2, n - 3] + [rng.randrange(n) for _ in range(96)]:
+        yield i, rng.choice(["dmr", "rdacq"]), False
+        if i % 3 == 1:
+            yield i, "reg", False
+            yield i, "ping", False
+            yield i + 1 if i + 1 < n else 0, "ping", False
+
+
+def run_scale_p2p(ctx, shape, n, salt, indexed, upto=None):
+    addr = SCALE_SHAPES[shape]
+    sut = Sut(indexed=indexed)
+    data = {"reg": p2p_command(0x10), "ping": p2p_ping(16), "dmr": p2p_command(0x11), "rdacq": p2p_command(0x12)}
+    registered, failure, t = set(), None, 0
+    try:
+        for t, (i, kind, snmp_fails) in enumerate(scale_p2p_events(shape, n, salt)):
+            if upto is not None and t > upto:
+                break
+            a = addr(i)
+            events, exc = sut.rx_light("p2p", a, data[kind], snmp_fails)
+            sends = [(e[1], e[2]) for e in events if e[0] == "send"]
+            what = f"delivery {t}: {kind} from peer #{i} {a} with {len(registered)} registered peers, {len(sut.storage)} records"
+            if kind == "reg":
+                if len(sends) != 1 or (exc is None) == snmp_fails:
+                    failure = ("p2p-registration-answer", what + ": not answered by exactly one datagram / wrong outcome", 1, len(sends))
+                elif exc is None:
+                    registered.add(a)
+            elif a not in registered:
+                if sends != [(b"\x00", a)] or exc is not None:
+                    failure = ("p2p-unregistered-not-rejected", what + ": a request from an unregistered source was not answered by the single-byte reject to the requester", [("00", cval(a))], [(d.hex(), cval(x)) for d, x in sends])
+            else:
+                tuple_error = kind != "ping" and not is_pair(a)  # the eagerly formatted log line, after the acceptance
+                want = 1 if kind == "ping" or tuple_error else 2
+                dest = {"ping": a, "dmr": (a[0], sut.p2p_port), "rdacq": ("", 0)}[kind]
+                if (b"\x00", a) in sends:
+                    failure = ("p2p-registered-rejected", what + ": a request from a registered source was rejected", None, None)
+                elif len(sends) != want or any(x != dest for _, x in sends) or (type(exc).__name__ != ("TypeError" if tuple_error else "NoneType")):
+                    failure = ("p2p-answer-count", what + ": not answered as specified", [want, cval(dest)], [(d.hex(), cval(x)) for d, x in sends] + [impl_error(exc) if exc else "ok"])
+            if failure:
+                break
+        if not failure and upto is None:
+            flags = {o.address_in for o in sut.storage.all() if o.attr(SPEC["p2pIsRegisteredKey"])}
+            if flags != registered:
+                odd = list(flags ^ registered)[:4]
+                failure = ("p2p-request-changed-state", f"at the end the registered flags differ from the completed registrations for {odd}", len(registered), len(flags))
+        if ctx is not None:
+            ctx.count(f"scale:p2p:{shape}:{'indexed' if indexed else 'plain'}-storage:peers", n)
+            ctx.count("scale:p2p:deliveries", t + 1)
+            ctx.hist["scale:p2p:peers-max"] = max(n, ctx.hist.get("scale:p2p:peers-max", 0))
+            ctx.case(("scale-p2p", shape, n, salt, indexed), sample={"class": "scale", "handler": "p2p", "shape": shape, "peers": n, "registered": len(registered), "indexed storage": indexed})
+            if failure:
+                ctx.count(f"oracle-failure:{failure[0]}")
+                ctx.fail(failure[0], {"stream": "scale-p2p", "shape": shape, "n": n, "salt": salt, "indexed": indexed, "upto": t}, failure[1], expected=failure[2], actual=failure[3])
+        return failure
+    finally:
+        sut.close()
+
+
+def run_scale_modelled(ctx, pairs, n):
+    """a few hundred distinct peers through the ordinary path: full oracle after every datagram and the model"""
+    syms = []
+    for i in range(n):
+        a = SCALE_SHAPES["ips6" if i % 2 else "ips"](i)
+        syms.append(("rdac", a, b"\x55\x55", False))
+        if i % 3 == 0:
+            syms.append(("p2p", a, p2p_command(0x10), False))
+        if i % 5 == 0:
+            syms.append(("rdac", a, RESP_FD, False))
+        syms.append(("p2p", a, p2p_ping(16), False))
+    for i in (0, 1, 2, 3, n - 1, n - 2):
+        a = SCALE_SHAPES["ips6" if i % 2 else "ips"](i)
+        syms += [("p2p", a, p2p_ping(16), False), ("rdac", a, RESP_FD, False), ("rdac", a, RESP_10, False)]
+    run_history(ctx, syms, pairs)
+    ctx.case(("scale-modelled", n))
+    ctx.count("scale:modelled:peers", n)
+
+
+def run_ambient(ctx, pairs):
+    """a fixed small sample under ambient interpreter state: root logger at DEBUG (the handlers' log lines are emitted to a
+    collecting handler, nothing is printed), a sys.stdout that raises on every write, `random` reseeded before every delivery"""
+    import random as _random
+    import sys
+
+    shapes = peer_shapes()
+    hs = [list(h) for h in CORPUS]
+    hs += [peer_pair_history(x, y) for (_, x), (_, y) in ctx.rng.sample(list(itertools.product(shapes, repeat=2)), 24)]
+    hs += [[random_sym(ctx.rng, None, PEERS + PEERS6) for _ in range(60)] for _ in range(12)]
+    root = logging.getLogger()
+    saved_level, saved_disable, saved_stdout = root.level, root.manager.disable, sys.stdout
+    records = []
+
+    class Collect(logging.Handler):
+        def emit(self, record):
+            records.append(record.getMessage())
+
+    class RaisingWriter:
+        def write(self, *_):
+            raise OSError("stdout is gone")
+
+        def flush(self):
+            raise OSError("stdout is gone")
+
+    handler = Collect(level=logging.DEBUG)
+    real_apply = globals()["apply"]
+
+    def reseeding_apply(*a, **k):
+        _random.seed(4711)
+        return real_apply(*a, **k)
+
+    n = 0
+    try:
+        root.addHandler(handler)
+        root.setLevel(logging.DEBUG)
+        logging.disable(logging.NOTSET)
+        sys.stdout = RaisingWriter()
+        globals()["apply"] = reseeding_apply
+        for h in hs:
+            run_history(ctx, h, pairs)
+            n += 1
+            ctx.case(("ambient", n))
+    finally:
+        globals()["apply"] = real_apply
+        sys.stdout = saved_stdout
+        root.removeHandler(handler)
+        root.setLevel(saved_level)
+        logging.disable(saved_disable)
+    ctx.count("ambient:histories(logger DEBUG, stdout raising, random reseeded)", n)
+    ctx.count("ambient:log-records-collected", len(records))
+
+
 def sym_json(s):
     return [s[0], list(s[1])] + [x.hex() if isinstance(x, bytes) else (list(x) if isinstance(x, tuple) else x) for x in s[2:]]
 
@@ -1136,7 +1555,16 @@ def _run(ctx):
         "known through RDAC) followed by ping / DMR / RDAC start-up; records carrying attributes named nearly like the "
         "is-registered key (true and false values) and the key itself with false values; every P2P sequence up to length 3 over "
         "16 symbols containing at least one near miss; random mixed histories up to 150 datagrams with random bodies, 15 % of "
-        "the symbols drawn from the near-miss tables. Distinct = distinct symbol sequence; non-trivial = at least one datagram dispatches"
+        "the symbols drawn from the near-miss tables; PEER ADDRESS SHAPES (argument provenance): every ordered pair of 13 shapes "
+        "(AF_INET6 4-tuples (host, port, flowinfo, scope_id) equal / differing in scope id, flowinfo, port, host; the 2-tuple; "
+        "namedtuples; str / int subclasses; lists; 3- / 5-tuples) in one registration + start-up + RDAC history (same peer iff ==), "
+        "every P2P sequence up to length 3 / 4 over the requests of three IPv6 peers sharing host and port, RDAC sequences up to "
+        "3 / 4 over them, random histories over shape pools; SCALE: 70 000 (quick) / 150 000 (thorough) distinct source addresses "
+        "on ONE RDAC and ONE P2P handler instance (indexed storage subclass) and 9 000 / 17 000 over the plain storage, O(1) checks "
+        "per delivery (sender's step / answer, size of the step table, completion once, destinations), the whole step table / all "
+        "registered flags against a mirror at powers of two +-1, every 1024 peers and the end; early finished / half-finished / "
+        "silent peers and a sample of old and new peers continue afterwards. Distinct = distinct symbol sequence; non-trivial = at "
+        "least one datagram dispatches"
     )
     ctx.trusted_base += [
         "Lean 4.33 kernel",
@@ -1149,12 +1577,22 @@ def _run(ctx):
     ]
     ctx.assumptions += [
         "connection_made was called with a transport; a completion callback is installed",
-        "peers are identified as the code does: the storage by (ip, port), the RDAC step dictionary by ip alone (two peers behind one IP share a run)",
+        "peers are identified as the code does: the storage by the whole address tuple the transport hands over ((ip, port), or (host, port, flowinfo, scope_id) for AF_INET6), the RDAC step dictionary by ip alone (two peers behind one IP share a run)",
+        "a peer address is a tuple (str, int, ...) with an int port (what a datagram transport delivers); lists and other shapes are checked by the oracle alone",
+        "the 70 000-peer scale runs inject an indexed RepeaterStorage subclass (create_repeater keeps an address index, match_attr('address_in') is a dict lookup); 9 000 / 17 000 peers run over the plain RepeaterStorage",
         "'expected response' at step 0 is any datagram (the first datagram of a peer starts the identification)",
         "UDP ports and the configured ports are < 65536",
         "the application may patch any attribute of a record between datagrams except id, address_in and the is-registered key with a true value (envOk); writing that key itself is the application's own authorisation decision and is followed by the oracle",
     ]
     pairs = []
+    import time
+
+    t_last = [time.time()]
+
+    def mark(stream):
+        now = time.time()
+        ctx.hist[f"seconds:{stream}"] = round(ctx.hist.get(f"seconds:{stream}", 0) + now - t_last[0], 1)
+        t_last[0] = now
 
     def flush(component):
         if pairs and not ctx.search_only and ctx.driver_ok:
@@ -1213,7 +1651,33 @@ def _run(ctx):
                     flush("handshake.rdac-steps")
     flush("handshake.rdac-steps")
     ctx.count("exhaustive:rdac-from-each-step", n)
+    mark("exhaustive")
     near_miss_sections(ctx, nm, pairs, flush)
+    mark("near-misses")
+    # ---- argument provenance: peer addresses of other shapes (AF_INET6 4-tuples, namedtuples, lists ...)
+    run_peer_shapes(ctx, pairs, flush)
+    mark("peer-shapes")
+    # ---- scale: thousands of distinct peers on one handler instance.  With the storage's own linear lookup every datagram
+    # costs O(peers); the big runs use the indexed storage subclass (see Sut), smaller ones the plain RepeaterStorage.
+    salt = ctx.seed
+    if not ctx.thorough():
+        plan = [("rdac", "ips", 70000 + ctx.seed % 11, True), ("p2p", "ips6", 70000 + ctx.seed % 11, True), ("p2p", "ips", 10000, True),
+                ("rdac", "ips", 9000 + ctx.seed % 11, False), ("p2p", "ips6", 3000, False)]
+    else:
+        plan = [("rdac", "ips", 150000 + ctx.seed % 11, True), ("p2p", "ips6", 150000 + ctx.seed % 11, True), ("p2p", "ips", 70000, True),
+                ("rdac", "ips6", 70000, True), ("rdac", "ips", 17000 + ctx.seed % 11, False), ("p2p", "ips6", 12000, False)]
+    for which, shape, n, indexed in plan:
+        failure = (run_scale_rdac if which == "rdac" else run_scale_p2p)(ctx, shape, n, salt, indexed)
+        mark(f"scale:{which}:{shape}:{n}:{'indexed' if indexed else 'plain'}")
+        if failure:
+            break
+    run_scale_modelled(ctx, pairs, 250 if not ctx.thorough() else 500)
+    flush("handshake.scale")
+    mark("scale:modelled")
+    # ---- ambient interpreter state
+    run_ambient(ctx, pairs)
+    flush("handshake.ambient")
+    mark("ambient")
     # ---- random mixed histories
     for i in range(ctx.budget(400, 8000)):
         length = ctx.rng.choice([5, 20, 60, 150]) if i % 5 else 150
@@ -1227,6 +1691,7 @@ def _run(ctx):
         if len(pairs) > 300000:
             flush("handshake.random")
     flush("handshake.random")
+    mark("random")
     ctx.exhaustive = False
 
 
@@ -1236,6 +1701,13 @@ def replay(obj):
     f = obj.get("failure") or {}
     inp = f.get("input") or {}
     print(json.dumps(obj.get("type")), f.get("what"))
+    if inp.get("stream") in ("scale-rdac", "scale-p2p"):
+        fn = run_scale_rdac if inp["stream"] == "scale-rdac" else run_scale_p2p
+        failure = fn(None, inp["shape"], inp["n"], inp["salt"], inp.get("indexed", True), upto=inp.get("upto"))
+        print(f"{inp['stream']} history shape={inp['shape']} n={inp['n']} salt={inp['salt']} indexed_storage={inp.get('indexed', True)}: deliveries 0..{inp.get('upto')} re-run")
+        print("property check:", failure)
+        print("expected:", f.get("expected"), "actual:", f.get("actual"))
+        return 1 if failure else 0
     hist = inp.get("history")
     if not hist:
         print("no history recorded (proof/correspondence record):", json.dumps(obj.get("no_longer_checks") or obj.get("correspondence_differences"))[:2000])
@@ -1243,11 +1715,11 @@ def replay(obj):
     syms = []
     for h in hist:
         if h[0] == "setout":
-            syms.append(("setout", tuple(h[1]), tuple(h[2])))
+            syms.append(("setout", uaddr(h[1]), tuple(h[2])))
         elif h[0] == "setattr":
-            syms.append(("setattr", tuple(h[1]), h[2], h[3]))
+            syms.append(("setattr", uaddr(h[1]), h[2], h[3]))
         else:
-            syms.append((h[0], tuple(h[1]), bytes.fromhex(h[2]), bool(h[3])))
+            syms.append((h[0], uaddr(h[1]), bytes.fromhex(h[2]), bool(h[3])))
 
     class C:
         failures = []
